@@ -54,8 +54,13 @@ package mqtt
 //@ loop 2: let P = rx_pos(c.bufr)
 //@ loop 2: modifies c.peek, rx_buf(c.bufr), rx_pend(c.bufr), rdl(c.readConn), cpos(rx_src(c.bufr))
 //@ loop 2: invariant rx_pos(c.bufr) == P
+//@ loop 2: invariant (ref(c.peek) == rx_bufref(c.bufr) || ref(c.peek) == 0 || c.peek == old(c.peek)) && (len(c.peek) <= rx_size(c.bufr) || c.peek == old(c.peek))
 //@ ensures[C13] (err == nil || hastype(err, *BigMessage)) ==> rx_pos(c.bufr) - old(rx_pos(c.bufr)) >= 2 && rx_pos(c.bufr) - old(rx_pos(c.bufr)) <= 5
 //@ ensures[C13] err == nil ==> len(c.peek) <= 268435455
+//@ ensures ref(c.peek) == rx_bufref(c.bufr) || ref(c.peek) == 0 || c.peek == old(c.peek)
+//@ ensures len(c.peek) <= rx_size(c.bufr) || c.peek == old(c.peek)
+//@ ensures hastype(err, *BigMessage) ==> unbox(err, *BigMessage).Size >= 0 && unbox(err, *BigMessage) != nil
+//@ ensures[C06] as(err, *BigMessage) ==> hastype(err, *BigMessage)
 //@ ensures[C13] hastype(err, *BigMessage) ==> unbox(err, *BigMessage).Size <= 268435455
 //@ ensures[C06] err == nil ==> head == rx_stream(c.bufr)[old(rx_pos(c.bufr))]
 //@ ensures[C06] err == nil ==> vwf(rx_stream(c.bufr), old(rx_pos(c.bufr)) + 1, rx_pos(c.bufr) - old(rx_pos(c.bufr)) - 1)
@@ -73,6 +78,14 @@ package mqtt
 // Content invariants of the token channels: every sender is obliged to them,
 // every receiver may rely on them.
 //@ chaninv mqtt.Client.writeSem(v): v != nil
+// Exchange channels stay open while queued (closed only by the read routine after popping);
+// a ping callback is an open one-slot channel that nobody has answered yet.
+//@ chaninv mqtt.outbound.queue(v): v != nil && !closed(v)
+//@ chaninv mqtt.Client.pingAck(v): v != nil && !closed(v) && cap(v) == 1 && len(v) == 0
+
+// A registered callback channel is touched only by the read routine when it removes the entry.
+//@ mapinv mqtt.unorderedTxs.perPacketID(v): v.done != nil && cap(v.done) == 1 && len(v.done) == 0 && !closed(v.done)
+
 // Signal channels are only ever closed, never sent on.
 //@ chaninv mqtt.Client.onlineSig(v): v != nil && len(v) == 0
 //@ chaninv mqtt.Client.offlineSig(v): v != nil && len(v) == 0
@@ -89,14 +102,17 @@ package mqtt
 //@ modifies chanstate(c.onlineSig)
 //@ requires c.onlineSig != nil && !closed(c.onlineSig) && cap(c.onlineSig) == 1
 //@ ensures !closed(c.onlineSig) && cap(c.onlineSig) == 1
+//@ ensures old(len(c.onlineSig)) == 1 ==> len(c.onlineSig) == 1 && qat(c.onlineSig, 0) == old(qat(c.onlineSig, 0))
 
 // lockWrite: takes the write token. nil error: the token (a live connection) is held.
 //@ func mqtt.(*Client).lockWrite -> conn, err
+//@ ensures !closed(c.onlineSig) && (old(len(c.onlineSig)) == 1 ==> len(c.onlineSig) == 1 && qat(c.onlineSig, 0) == old(qat(c.onlineSig, 0)))
 //@ modifies chanstate(c.writeSem), chanstate(c.onlineSig)
 //@ requires c.writeSem != nil && cap(c.writeSem) == 1 && c.onlineSig != nil && !closed(c.onlineSig) && cap(c.onlineSig) == 1 && c.ctx != nil
 //@ requires closed(c.writeSem) ==> len(c.writeSem) == 0
 //@ loop 1: modifies chanstate(c.writeSem), chanstate(c.onlineSig)
 //@ loop 1: invariant cap(c.writeSem) == 1 && !closed(c.onlineSig) && cap(c.onlineSig) == 1 && (closed(c.writeSem) ==> len(c.writeSem) == 0)
+//@ loop 1: invariant old(len(c.onlineSig)) == 1 ==> len(c.onlineSig) == 1 && qat(c.onlineSig, 0) == old(qat(c.onlineSig, 0))
 //@ loop 1: invariant forall(k, wire_len(k) == old(wire_len(k)))
 //@ ensures[C08,C14,C18] err == nil ==> conn != nil && conn != boxed(connSignal, 0) && conn != boxed(connSignal, 1) && len(c.writeSem) == 0 && !closed(c.writeSem)
 //@ ensures[C14,C18] err != nil ==> conn == nil && (err == ErrCanceled || err == ErrClosed || err == ErrDown)
@@ -106,6 +122,7 @@ package mqtt
 
 // write: the packet goes to the connection found in the write semaphore, or nowhere.
 //@ func mqtt.(*Client).write -> err
+//@ ensures !closed(c.onlineSig) && (old(len(c.onlineSig)) == 1 ==> len(c.onlineSig) == 1 && qat(c.onlineSig, 0) == old(qat(c.onlineSig, 0)))
 //@ requires c.writeSem != nil && cap(c.writeSem) == 1 && c.onlineSig != nil && !closed(c.onlineSig) && cap(c.onlineSig) == 1 && c.ctx != nil
 //@ requires closed(c.writeSem) ==> len(c.writeSem) == 0
 //@ modifies wire, wire_len, wclosed, wdl, chanstate(c.writeSem), chanstate(c.onlineSig)
@@ -119,6 +136,7 @@ package mqtt
 
 // writeBuffers: the flattened packet goes to the connection found in the write semaphore, or nowhere.
 //@ func mqtt.(*Client).writeBuffers -> err
+//@ ensures !closed(c.onlineSig) && (old(len(c.onlineSig)) == 1 ==> len(c.onlineSig) == 1 && qat(c.onlineSig, 0) == old(qat(c.onlineSig, 0)))
 //@ requires c.writeSem != nil && cap(c.writeSem) == 1 && c.onlineSig != nil && !closed(c.onlineSig) && cap(c.onlineSig) == 1 && c.ctx != nil
 //@ requires closed(c.writeSem) ==> len(c.writeSem) == 0
 //@ modifies wire, wire_len, wclosed, wdl, chanstate(c.writeSem), chanstate(c.onlineSig), elems(p)
@@ -143,7 +161,7 @@ package mqtt
 
 //@ func mqtt.(*Client).onPUBACK -> err
 //@ requires c.persistence != nil && c.atLeastOnce.queue != nil
-//@ requires forall(i, 0, len(c.atLeastOnce.queue), qat(c.atLeastOnce.queue, i) != nil && !closed(qat(c.atLeastOnce.queue, i)))
+//@ modifies c.Acked, chanstate(c.atLeastOnce.queue), region("chan.closed.error"), st_has(c.persistence, c.peek[0]*256 + c.peek[1])
 //@ ensures[C01,C13] err == nil ==> len(c.peek) == 2 && c.peek[0]*256 + c.peek[1] == 32768 + old(c.Acked) % 16384
 //@ ensures[C01,C13] err == nil ==> old(len(c.atLeastOnce.queue)) > 0 && len(c.atLeastOnce.queue) == old(len(c.atLeastOnce.queue)) - 1
 //@ ensures[C01,C13] err == nil ==> c.Acked == (old(c.Acked) + 1) % 18446744073709551616 && closed(old(qat(c.atLeastOnce.queue, 0)))
@@ -154,8 +172,9 @@ package mqtt
 //@ ensures[C01,C13] forall(k, k != 32768 + old(c.Acked) % 16384 ==> st_has(c.persistence, k) == old(st_has(c.persistence, k)))
 
 //@ func mqtt.(*Client).onPUBCOMP -> err
+//@ ensures old(wrap64(c.Received - c.Completed)) <= old(len(c.exactlyOnce.queue)) ==> wrap64(c.Received - c.Completed) <= len(c.exactlyOnce.queue)
 //@ requires c.persistence != nil && c.exactlyOnce.queue != nil
-//@ requires forall(i, 0, len(c.exactlyOnce.queue), qat(c.exactlyOnce.queue, i) != nil && !closed(qat(c.exactlyOnce.queue, i)))
+//@ modifies c.Completed, chanstate(c.exactlyOnce.queue), region("chan.closed.error"), st_has(c.persistence, c.peek[0]*256 + c.peek[1])
 //@ ensures[C01,C03,C13] err == nil ==> len(c.peek) == 2 && c.peek[0]*256 + c.peek[1] == 49152 + old(c.Completed) % 16384
 //@ ensures[C01,C03,C13] err == nil ==> old(c.Completed) < old(c.Received) && old(len(c.exactlyOnce.queue)) > 0 && len(c.exactlyOnce.queue) == old(len(c.exactlyOnce.queue)) - 1
 //@ ensures[C01,C03,C13] err == nil ==> c.Completed == old(c.Completed) + 1 && c.Received == old(c.Received) && closed(old(qat(c.exactlyOnce.queue, 0)))
@@ -167,13 +186,18 @@ package mqtt
 
 // onPUBREC: Save(PUBREL) first, then count, then write.
 //@ func mqtt.(*Client).onPUBREC -> err
+//@ ensures wrap64(c.Received - c.Completed) <= len(c.exactlyOnce.queue)
+//@ ensures cap(c.writeSem) == 1 && (closed(c.writeSem) ==> len(c.writeSem) == 0) && !closed(c.onlineSig) && (old(len(c.onlineSig)) == 1 ==> len(c.onlineSig) == 1 && qat(c.onlineSig, 0) == old(qat(c.onlineSig, 0)))
+//@ ensures ref(c.pendingAck) == old(ref(c.pendingAck)) || fresh(c.pendingAck)
+//@ ensures old(len(c.pendingAck)) == 0 || old(len(c.pendingAck)) == 4 ==> len(c.pendingAck) == 0 || len(c.pendingAck) == 4
 //@ reveal flatlen_ flatat_
+//@ modifies c.pendingAck, elems(c.pendingAck), c.Received, st_has(c.persistence, c.peek[0]*256 + c.peek[1]), st_len(c.persistence, c.peek[0]*256 + c.peek[1]), st_val(c.persistence, c.peek[0]*256 + c.peek[1]), wire, wire_len, wclosed, wdl, chanstate(c.writeSem), chanstate(c.onlineSig)
 //@ requires writable(c)
 //@ requires c.persistence != nil && c.exactlyOnce.queue != nil
-//@ requires c.Completed <= c.Received && c.Received - c.Completed <= 16384
+//@ requires wrap64(c.Received - c.Completed) <= len(c.exactlyOnce.queue) && cap(c.exactlyOnce.queue) <= 16384
 //@ requires ref(c.peek) != ref(c.pendingAck) || ref(c.peek) == 0
 //@ ensures[C03,C13] c.Received == old(c.Received) || c.Received == wrap64(old(c.Received) + 1)
-//@ ensures[C03,C13] c.Received == wrap64(old(c.Received) + 1) ==> len(c.peek) == 2 && c.peek[0]*256 + c.peek[1] == 49152 + old(c.Received) % 16384 && old(c.Received) - old(c.Completed) < old(len(c.exactlyOnce.queue))
+//@ ensures[C03,C13] c.Received == wrap64(old(c.Received) + 1) ==> len(c.peek) == 2 && c.peek[0]*256 + c.peek[1] == 49152 + old(c.Received) % 16384 && old(wrap64(c.Received - c.Completed)) < old(len(c.exactlyOnce.queue))
 //@ ensures[C01,C03] c.Received == wrap64(old(c.Received) + 1) ==> st_has(c.persistence, 49152 + old(c.Received) % 16384) && st_len(c.persistence, 49152 + old(c.Received) % 16384) == 4
 //@ ensures[C03] c.Received == wrap64(old(c.Received) + 1) ==> st_val(c.persistence, 49152 + old(c.Received) % 16384)[0] == 98 && st_val(c.persistence, 49152 + old(c.Received) % 16384)[1] == 2 && st_val(c.persistence, 49152 + old(c.Received) % 16384)[2] * 256 + st_val(c.persistence, 49152 + old(c.Received) % 16384)[3] == 49152 + old(c.Received) % 16384
 //@ ensures[C01,C03,C13] c.Received == old(c.Received) ==> err != nil && forall(k, st_has(c.persistence, k) == old(st_has(c.persistence, k)) && st_len(c.persistence, k) == old(st_len(c.persistence, k)) && st_val(c.persistence, k) == old(st_val(c.persistence, k)))
@@ -184,6 +208,10 @@ package mqtt
 
 // onPUBREL: Delete(marker) first, PUBCOMP only after; also for unknown identifiers.
 //@ func mqtt.(*Client).onPUBREL -> err
+//@ ensures cap(c.writeSem) == 1 && (closed(c.writeSem) ==> len(c.writeSem) == 0) && !closed(c.onlineSig) && (old(len(c.onlineSig)) == 1 ==> len(c.onlineSig) == 1 && qat(c.onlineSig, 0) == old(qat(c.onlineSig, 0)))
+//@ ensures ref(c.pendingAck) == old(ref(c.pendingAck)) || fresh(c.pendingAck)
+//@ ensures old(len(c.pendingAck)) == 0 || old(len(c.pendingAck)) == 4 ==> len(c.pendingAck) == 0 || len(c.pendingAck) == 4
+//@ modifies c.pendingAck, elems(c.pendingAck), st_has(c.persistence, 65536 + c.peek[0]*256 + c.peek[1]), wire, wire_len, wclosed, wdl, chanstate(c.writeSem), chanstate(c.onlineSig)
 //@ requires writable(c)
 //@ requires c.persistence != nil
 //@ requires ref(c.peek) != ref(c.pendingAck) || ref(c.peek) == 0
@@ -194,14 +222,18 @@ package mqtt
 //@ at[C04] call write#1: assert !st_has(c.persistence, 65536 + c.peek[0]*256 + c.peek[1]) && len(p) == 4 && p[0] == 112 && p[1] == 2 && p[2] == c.peek[0] && p[3] == c.peek[1]
 
 //@ func mqtt.(*Client).onPINGRESP -> err
+//@ ensures !closed(c.pingAck)
 //@ requires c.pingAck != nil && !closed(c.pingAck)
-//@ requires len(c.pingAck) > 0 ==> qat(c.pingAck, 0) != nil && !closed(qat(c.pingAck, 0))
+//@ modifies chanstate(c.pingAck), region("chan.closed.error")
 //@ ensures[C13] (err != nil) == (len(c.peek) != 0)
 //@ ensures[C11,C13] err != nil ==> len(c.pingAck) == old(len(c.pingAck))
 //@ ensures[C11] err == nil && old(len(c.pingAck)) > 0 ==> closed(old(qat(c.pingAck, 0))) && len(c.pingAck) == old(len(c.pingAck)) - 1
 
 // onPUBLISH only slices c.peek and queues the acknowledgement; nothing is written.
 //@ func mqtt.(*Client).onPUBLISH -> message, topic, err
+//@ ensures ref(c.pendingAck) == old(ref(c.pendingAck)) || fresh(c.pendingAck)
+//@ ensures old(len(c.pendingAck)) == 0 || old(len(c.pendingAck)) == 4 ==> len(c.pendingAck) == 0 || len(c.pendingAck) == 4
+//@ modifies c.pendingAck, elems(c.pendingAck)
 //@ requires c.persistence != nil
 //@ requires ref(c.peek) != ref(c.pendingAck) || ref(c.peek) == 0
 //@ ensures[C07] forall(k, wire_len(k) == old(wire_len(k)))
@@ -237,13 +269,14 @@ package mqtt
 //@ ensures[C11] !has(txs.perPacketID, packetID)
 //@ ensures[C11] old(has(txs.perPacketID, packetID)) ==> done == old(at(txs.perPacketID, packetID)).done && topicFilters == old(at(txs.perPacketID, packetID)).topicFilters
 //@ ensures[C11] !old(has(txs.perPacketID, packetID)) ==> done == nil && topicFilters == nil
+//@ ensures[C11] done != nil ==> cap(done) == 1 && len(done) == 0 && !closed(done)
 //@ ensures[C11,C17] forall(k, k != packetID ==> has(txs.perPacketID, k) == old(has(txs.perPacketID, k)) && at(txs.perPacketID, k) == old(at(txs.perPacketID, k)))
 //@ ensures[C11,C17] len(txs.perPacketID) == old(len(txs.perPacketID)) - ite(old(has(txs.perPacketID, packetID)), 1, 0)
 
 // SUBACK: validation first, then the slot is released and its own callback answered.
 //@ func mqtt.(*Client).onSUBACK -> err
+//@ modifies region("map.map[uint16]mqtt.unorderedCallback"), region("map.len"), region("chan.len.error"), region("chan.head.error"), region("chan.q.error"), region("chan.closed.error")
 //@ requires c.perPacketID != nil
-//@ requires forall(k, has(c.perPacketID, k) && at(c.perPacketID, k).done != nil ==> cap(at(c.perPacketID, k).done) == 1 && len(at(c.perPacketID, k).done) == 0 && !closed(at(c.perPacketID, k).done))
 //@ loop 1: invariant rangeindex >= -1 && 0 <= failN && failN <= rangeindex + 1 && forall(k, 0, rangeindex + 1, returnCodes[k] == 0 || returnCodes[k] == 1 || returnCodes[k] == 2 || returnCodes[k] == 128)
 //@ loop 1: invariant (failN == 0) == forall(k, 0, rangeindex + 1, returnCodes[k] != 128)
 //@ loop 2: invariant rangeindex >= -1 && len(err) <= rangeindex + 1 && len(err) >= 0
@@ -254,8 +287,8 @@ package mqtt
 //@ ensures[C11] err == nil && old(has(c.perPacketID, c.peek[0]*256 + c.peek[1])) && old(at(c.perPacketID, c.peek[0]*256 + c.peek[1])).done != nil ==> closed(old(at(c.perPacketID, c.peek[0]*256 + c.peek[1])).done)
 
 //@ func mqtt.(*Client).onUNSUBACK -> err
+//@ modifies region("map.map[uint16]mqtt.unorderedCallback"), region("map.len"), region("chan.closed.error")
 //@ requires c.perPacketID != nil
-//@ requires forall(k, has(c.perPacketID, k) && at(c.perPacketID, k).done != nil ==> !closed(at(c.perPacketID, k).done))
 //@ ensures[C11,C13] len(c.peek) != 2 || c.peek[0]*256 + c.peek[1] == 0 || (c.peek[0]*256 + c.peek[1]) - (c.peek[0]*256 + c.peek[1]) % 8192 != 16384 ==> err != nil && forall(k, has(c.perPacketID, k) == old(has(c.perPacketID, k)))
 //@ ensures[C11] forall(k, len(c.peek) >= 2 && k != c.peek[0]*256 + c.peek[1] ==> has(c.perPacketID, k) == old(has(c.perPacketID, k)) && at(c.perPacketID, k) == old(at(c.perPacketID, k)))
 //@ ensures[C11] err == nil ==> !has(c.perPacketID, c.peek[0]*256 + c.peek[1])
@@ -381,14 +414,14 @@ package mqtt
 //@ recvinv ch(v): v != nil && len(v) == 0
 //@ modifies chanstate(ch), chanstate(qat(ch, 0))
 //@ ensures !closed(ch) && cap(ch) == 1
-//@ ensures[C12,C10] len(ch) == 1 && qat(ch, 0) != nil && closed(qat(ch, 0))
+//@ ensures[C12,C10] len(ch) == 1 && qat(ch, 0) != nil && closed(qat(ch, 0)) && qat(ch, 0) == old(qat(ch, 0)) && len(qat(ch, 0)) == 0
 
 //@ func mqtt.blockSignalChan
 //@ requires ch != nil && !closed(ch) && cap(ch) == 1 && len(ch) == 1 && qat(ch, 0) != nil && len(qat(ch, 0)) == 0
 //@ recvinv ch(v): v != nil && len(v) == 0
 //@ modifies chanstate(ch)
 //@ ensures !closed(ch) && cap(ch) == 1
-//@ ensures[C12,C10] len(ch) == 1 && qat(ch, 0) != nil && !closed(qat(ch, 0)) && len(qat(ch, 0)) == 0
+//@ ensures[C12,C10] len(ch) == 1 && qat(ch, 0) != nil && !closed(qat(ch, 0)) && len(qat(ch, 0)) == 0 && (qat(ch, 0) == old(qat(ch, 0)) || fresh(qat(ch, 0)))
 
 //@ func mqtt.(*unorderedTxs).breakAll
 //@ unverified
@@ -397,22 +430,23 @@ package mqtt
 
 // toOffline: leave the connection; everything pending on it is released.
 //@ func mqtt.(*Client).toOffline
+//@ modifies chanstate(c.writeSem), wclosed(c.readConn), chanstate(c.onlineSig), chanstate(c.offlineSig), chanstate(qat(c.onlineSig, 0)), chanstate(qat(c.offlineSig, 0)), c.readConn, c.bigMessage, c.bufr, c.peek, chanstate(c.pingAck), region("map.map[uint16]mqtt.unorderedCallback"), region("map.len"), region("chan.len.error"), region("chan.head.error"), region("chan.q.error")
 //@ requires writable(c) && sigfull(c) && c.readConn != nil && c.pingAck != nil && !closed(c.pingAck) && cap(c.pingAck) == 1
-//@ requires len(c.pingAck) > 0 ==> qat(c.pingAck, 0) != nil && !closed(qat(c.pingAck, 0)) && len(qat(c.pingAck, 0)) < cap(qat(c.pingAck, 0))
 //@ at[C10] recv writeSem#1: assert wclosed(c.readConn)
 //@ ensures[C07] c.pendingAck == old(c.pendingAck) && forall(k, 0, len(c.pendingAck), c.pendingAck[k] == old(c.pendingAck[k]))
 //@ ensures[C10] !closed(c.writeSem) ==> wclosed(old(c.readConn))
-//@ ensures[C10,C18] !closed(c.writeSem) ==> len(c.writeSem) == 1 && qat(c.writeSem, 0) == boxed(connSignal, 0) && c.readConn == nil && c.bufr == nil && c.bigMessage == nil && len(c.peek) == 0
+//@ ensures[C10,C18] !closed(c.writeSem) ==> len(c.writeSem) == 1 && qat(c.writeSem, 0) == boxed(connSignal, 0) && c.readConn == nil && c.bufr == nil && c.bigMessage == nil && c.peek == nil
 //@ ensures[C11] !closed(c.writeSem) ==> forall(k, !has(c.perPacketID, k)) && len(c.pingAck) == 0
 //@ ensures[C14] forall(k, wire_len(k) == old(wire_len(k)))
+//@ ensures writable(c) && sigfull(c) && !closed(c.pingAck) && cap(c.pingAck) == 1
 
 // resend: every pending record from seqNoOffset on is loaded and written in ascending order;
 // a record written completely counts as submitted even if a later one fails.
 //@ func mqtt.(*Client).resend -> err
 //@ requires conn != nil && c.persistence != nil && (space == 32768 || space == 49152)
-//@ requires forall(k, st_has(c.persistence, k) ==> st_len(c.persistence, k) >= 2)
-//@ modifies seq.submitN, wire(conn), wire_len(conn), wdl(conn), region("elems.byte")
-//@ loop 1: modifies seq.submitN, wire(conn), wire_len(conn), wdl(conn), region("elems.byte")
+//@ requires forall(k, k >= 32768 && k < 65536 && st_has(c.persistence, k) ==> st_len(c.persistence, k) >= 2)
+//@ modifies seq.submitN, wire(conn), wire_len(conn), wdl(conn)
+//@ loop 1: modifies seq.submitN, wire(conn), wire_len(conn), wdl(conn)
 //@ loop 1: invariant seqNoOffset <= seqNo && (seqNo <= seq.acceptN || seqNo == seqNoOffset) && seq.acceptN == old(seq.acceptN)
 //@ loop[C05] 1: invariant (seqNo == seqNoOffset || seq.submitN >= seqNo) && seq.submitN >= old(seq.submitN) && (seq.submitN == old(seq.submitN) || seq.submitN == seqNo)
 //@ loop 1: invariant wire_len(conn) >= old(wire_len(conn)) && forall(k, 0, old(wire_len(conn)), wire(conn)[k] == old(wire(conn))[k])
@@ -429,21 +463,24 @@ package mqtt
 //@ func mqtt.(*Client).dialAndConnect -> conn, bufr, err
 //@ unverified
 //@ modifies wire, wire_len, wclosed, wdl, rdl, c.InNewSession.v, rx_pos, rx_buf, rx_pend, rx_size
-//@ ensures err == nil ==> conn != nil && bufr != nil && conn != boxed(connSignal, 0) && conn != boxed(connSignal, 1)
+//@ ensures err == nil ==> conn != nil && bufr != nil && conn != boxed(connSignal, 0) && conn != boxed(connSignal, 1) && rx_src(bufr) == conn && rx_bufref(bufr) > 0 && fresh_ref(rx_bufref(bufr)) && rx_size(bufr) == readBufSize
 //@ ensures err != nil ==> conn == nil && bufr == nil
 
 // connect: installs a new connection. Resends happen while both sequence tokens and the
 // write token are held and after connection control was handed back (so Close can interrupt).
 //@ func mqtt.(*Client).connect -> err
+//@ modifies chanstate(c.connSem), chanstate(c.writeSem), chanstate(c.atLeastOnce.seqSem), chanstate(c.exactlyOnce.seqSem), chanstate(c.onlineSig), chanstate(c.offlineSig), chanstate(qat(c.onlineSig, 0)), chanstate(qat(c.offlineSig, 0)), c.readConn, c.bufr, c.reconnectWait, wire, wire_len, wclosed, wdl, rdl, c.InNewSession.v, rx_pos, rx_buf, rx_pend, rx_size
 // Rely: the semaphores are closed only by the holder of the connSem token (Close, Disconnect)
 // and the sequence semaphores only by the read routine itself (termCallbacks).
 //@ stable writeSem, seqSem
 //@ requires writable(c) && c.connSem != nil && cap(c.connSem) == 1 && c.persistence != nil
-//@ requires (closed(c.connSem) ==> len(c.connSem) == 0) && (closed(c.writeSem) ==> closed(c.connSem)) && c.connSem != c.writeSem
+// Rely: a value received from connSem means nobody closed the semaphores (their closer never gives the token back).
+//@ onopen connSem: !closed(c.writeSem)
+//@ requires (closed(c.connSem) ==> len(c.connSem) == 0) && c.connSem != c.writeSem
 //@ requires !closed(c.atLeastOnce.seqSem) && !closed(c.exactlyOnce.seqSem)
 //@ requires c.atLeastOnce.seqSem != nil && cap(c.atLeastOnce.seqSem) == 1 && c.exactlyOnce.seqSem != nil && cap(c.exactlyOnce.seqSem) == 1 && c.atLeastOnce.seqSem != c.exactlyOnce.seqSem
 //@ requires sigfull(c)
-//@ requires forall(k, st_has(c.persistence, k) ==> st_len(c.persistence, k) >= 2)
+//@ requires forall(k, k >= 32768 && k < 65536 && st_has(c.persistence, k) ==> st_len(c.persistence, k) >= 2)
 //@ at[C18] call dialAndConnect#1: assert config.CleanSession == (c.CleanSession && previousConn == nil) && config.Will.Topic == c.Will.Topic && config.KeepAlive == c.KeepAlive && config.UserName == c.UserName
 //@ at[C18] send connSem#1: assert v == previousConn
 //@ at[C18] send connSem#2: assert v == previousConn
@@ -452,6 +489,13 @@ package mqtt
 //@ ensures[C10,C18] err == nil ==> c.readConn != nil && c.bufr != nil && c.reconnectWait == 0 && len(c.writeSem) == 1 && qat(c.writeSem, 0) == c.readConn && c.readConn != boxed(connSignal, 0) && c.readConn != boxed(connSignal, 1)
 //@ ensures[C10,C18] err != nil ==> c.readConn == old(c.readConn) && c.bufr == old(c.bufr)
 //@ ensures[C18] err != nil && err != ErrClosed ==> len(c.writeSem) == 1 && qat(c.writeSem, 0) == boxed(connSignal, 1)
+//@ ensures writable(c)
+//@ ensures sigfull(c)
+//@ ensures (closed(c.connSem) ==> len(c.connSem) == 0)
+//@ ensures err == nil ==> rx_bufref(c.bufr) > 0 && fresh_ref(rx_bufref(c.bufr)) && rx_size(c.bufr) == readBufSize
+//@ ensures !closed(c.atLeastOnce.seqSem) && !closed(c.exactlyOnce.seqSem)
+//@ ensures[C10] err == nil ==> rx_src(c.bufr) == c.readConn
+//@ ensures[C12] old(closed(c.writeSem)) ==> err != nil
 //@ ensures[C07] c.pendingAck == old(c.pendingAck)
 //@ ensures[C01] c.Acked == old(c.Acked) && c.Received == old(c.Received) && c.Completed == old(c.Completed)
 
@@ -475,6 +519,7 @@ package mqtt
 //@ at[C18] call writeTo#1: assert wire_len(conn) == old(wire_len(conn))
 //@ ensures[C13,C18] err == nil ==> r != nil && rx_stream(r)[0] == 32 && rx_stream(r)[1] == 2 && rx_stream(r)[3] == 0 && (rx_stream(r)[2] == 0 || (rx_stream(r)[2] == 1 && !config.CleanSession))
 //@ ensures[C06,C18] err == nil ==> rx_src(r) == conn && rx_base(r) == old(cpos(conn)) && rx_pos(r) == 4
+//@ ensures err == nil ==> rx_size(r) == readBufSize && rx_bufref(r) > 0 && fresh_ref(rx_bufref(r))
 //@ ensures[C18] err == nil && rx_stream(r)[2] == 0 ==> c.InNewSession.v != 0
 //@ ensures[C18] err == nil && rx_stream(r)[2] == 1 ==> c.InNewSession.v == old(c.InNewSession.v)
 //@ ensures[C18] err != nil ==> r == nil
@@ -503,3 +548,31 @@ package mqtt
 //@ ensures[C12,C14] old(closed(c.connSem)) ==> err != nil && Is(err, ErrClosed) && forall(k, wire_len(k) == old(wire_len(k)))
 //@ ensures[C12,C14] err == nil ==> exists(w, wire_len(w) == old(wire_len(w)) + 2 && wire(w)[old(wire_len(w))] == 224 && wire(w)[old(wire_len(w)) + 1] == 0 && wclosed(w))
 //@ ensures[C14] err != nil && (Is(err, ErrClosed) || Is(err, ErrCanceled) || Is(err, ErrDown)) ==> forall(k, wire_len(k) == old(wire_len(k)))
+
+// discard: skips exactly n bytes of the stream, tolerating deadline expiries that saw progress.
+//@ func mqtt.(*Client).discard -> err
+//@ requires c.bufr != nil && c.readConn != nil && n >= 0
+//@ modifies rx_pos(c.bufr), rx_buf(c.bufr), rx_pend(c.bufr), rdl(c.readConn), cpos(rx_src(c.bufr))
+//@ loop 1: modifies rx_pos(c.bufr), rx_buf(c.bufr), rx_pend(c.bufr), rdl(c.readConn), cpos(rx_src(c.bufr))
+//@ loop 1: invariant n >= 0 && n <= old(n) && rx_pos(c.bufr) + n == old(rx_pos(c.bufr)) + old(n)
+//@ ensures[C06] err == nil ==> rx_pos(c.bufr) == old(rx_pos(c.bufr)) + n
+//@ ensures[C06] rx_pos(c.bufr) >= old(rx_pos(c.bufr)) && rx_pos(c.bufr) <= old(rx_pos(c.bufr)) + n
+
+// The read buffer size is a package variable; it is assumed not to change while a client
+// exists and to be at least bufio's minimum (the package sets 128 KiB).
+//@ global readBufSize >= 16
+
+// The read routine. rdinv: the part of the client invariant the read routine relies on and restores.
+//@ pred rdinv(c): writable(c) && sigfull(c) && c.connSem != nil && cap(c.connSem) == 1 && c.connSem != c.writeSem && (closed(c.connSem) ==> len(c.connSem) == 0) && c.persistence != nil && c.perPacketID != nil && c.pingAck != nil && !closed(c.pingAck) && cap(c.pingAck) == 1 && c.atLeastOnce.queue != nil && c.exactlyOnce.queue != nil && c.atLeastOnce.queue != c.exactlyOnce.queue && c.pingAck != c.atLeastOnce.queue && c.pingAck != c.exactlyOnce.queue && c.atLeastOnce.seqSem != nil && cap(c.atLeastOnce.seqSem) == 1 && c.exactlyOnce.seqSem != nil && cap(c.exactlyOnce.seqSem) == 1 && c.atLeastOnce.seqSem != c.exactlyOnce.seqSem && !closed(c.atLeastOnce.seqSem) && !closed(c.exactlyOnce.seqSem) && wrap64(c.Received - c.Completed) <= len(c.exactlyOnce.queue) && cap(c.exactlyOnce.queue) <= 16384 && (len(c.pendingAck) == 0 || len(c.pendingAck) == 4) && (c.bufr != nil ==> rx_bufref(c.bufr) > 0 && rx_bufref(c.bufr) != ref(c.pendingAck) && rx_size(c.bufr) == readBufSize) && (ref(c.peek) == 0 || (c.bufr != nil && ref(c.peek) == rx_bufref(c.bufr))) && (c.bigMessage != nil ==> c.bigMessage.Size >= 0) && (c.bufr != nil ==> len(c.peek) <= rx_size(c.bufr))
+//@ pred rdmaps(c): forall(k, k >= 32768 && k < 65536 && st_has(c.persistence, k) ==> st_len(c.persistence, k) >= 2)
+//@ func mqtt.(*Client).readSlices -> message, topic, err
+//@ stable writeSem, seqSem
+//@ requires rdinv(c) && rdmaps(c) && (c.readConn == nil) == (c.bufr == nil)
+//@ loop 1: invariant rdinv(c)
+//@ loop[reveal=flatlen_] 1: invariant rdmaps(c)
+//@ loop 1: invariant c.readConn != nil && c.bufr != nil
+//@ at[C04,C07] call write#1: assert len(p) == 4 && p == c.pendingAck && (p[0] / 16 == 5 ==> st_has(c.persistence, 65536 + p[2]*256 + p[3]))
+//@ ensures[C06,C07,C10,C13] rdinv(c) && ((c.readConn == nil) == (c.bufr == nil))
+//@ ensures[C10,C13] err != nil && Is(err, errProtoReset) && !closed(c.writeSem) ==> c.readConn == nil && c.bufr == nil && c.peek == nil && c.bigMessage == nil
+//@ ensures[C06] err == nil ==> c.bufr != nil && (ref(message) == 0 || ref(message) == rx_bufref(c.bufr)) && (ref(topic) == 0 || ref(topic) == rx_bufref(c.bufr))
+//@ ensures[C06] hastype(err, *BigMessage) ==> c.bigMessage != nil && c.bigMessage == unbox(err, *BigMessage) && c.peek == nil
